@@ -217,11 +217,18 @@ CHECKS['C01'] = dict(
          'concurrent mixes of the five interaction models from either side, payloads 0..420 bytes, fragment sizes none/64/100, '
          'byte-stream framing re-chunked at random and message framing, late futures, paced publishers; per direction Coq checks '
          'dispatched = receive(chunks read) and, per stream, = expected_rx(frames the real sender queued); plus the delivery oracle on '
-         'the recording applications (exactly once, byte for byte, in order, right interaction, right caller). Partial: dispatch from '
-         'complete frames to handlers/subscribers is covered by the Endpoint model theorems (C07-C12) and the oracle, not restated '
-         'as one theorem.',
+         'the recording applications (exactly once, byte for byte, in order, right interaction, right caller). Above the pipeline, '
+         'model/Network.v joins two endpoint models by links with exactly that guarantee (per stream first in first out, streams may '
+         'overtake each other) and C01_network_delivery proves for EVERY history of the two endpoints, each side and stream: the payloads '
+         'the application is given (handler arguments, subscriber elements, awaitable results) are an in-order, repetition-free selection '
+         'of the payloads of the frames the peer queued on that stream - nothing fabricated, duplicated, reordered, altered or taken from '
+         'another stream; a section queues at most one payload frame, carrying exactly the payload handed over in it; nothing is lost at '
+         'dispatch while the local party is still listening. Network.v is tied to the code by two RECORDED real endpoints with the '
+         'harness playing the link, the recorded history replayed through net_run inside Coq (effects of every event, every delivered '
+         'frame, final link contents). Partial: "exactly once" for a stream that ends normally is proved per dispatch step plus the '
+         'oracle, not as one theorem over whole histories.',
     design_ref='DESIGN.md section 6, C01',
-    technique='Coq proof (end-to-end pipeline theorem composed from the codec, fragmenter, send-queue, parser and cache theorems) + in-Coq correspondence with two real endpoints over a simulated link')
+    technique='Coq proof (end-to-end pipeline theorem composed from the codec, fragmenter, send-queue, parser and cache theorems; application-to-application theorems over a two-endpoint network model) + in-Coq correspondence with two real endpoints over a simulated link and with two recorded real endpoints linked by the harness')
 
 CHECKS['C20'] = dict(
     text='Theorems (props/C20.v): Publisher->Observable (client results, channel handler side): for every history the observer sees '
